@@ -111,7 +111,7 @@ func initAllowed(modPath string) func(string) bool {
 		"encoding/base32": true, "encoding/hex": true, "time": true, "math": true, "math/bits": true, "io/fs": true,
 		"context": true, "sync": true, "sync/atomic": true, "internal/bytealg": true, "io/ioutil": true,
 		"internal/oserror": true, "internal/stringslite": true, "internal/itoa": true, "maps": true, "cmp": true,
-		"container/list": true, "hash": true, "hash/crc32": false, "path/filepath": true, "regexp/syntax": true, "regexp": true,
+		"container/list": true, "hash": true, "hash/crc32": true, "compress/flate": true, "compress/gzip": true, "path/filepath": true, "regexp/syntax": true, "regexp": true,
 		"internal/byteorder": true, "iter": true,
 	}
 	return func(p string) bool {
